@@ -6,6 +6,7 @@ import TantivyModel.Model.PostingsCodec
 import TantivyModel.Model.Positions
 import TantivyModel.Model.TermInfoStore
 import TantivyModel.Model.BlockCursor
+import TantivyModel.Model.Recorder
 /-!
 Line protocol of the C07 model (see harness/src/props/c07.rs):
 
@@ -19,6 +20,7 @@ Line protocol of the C07 model (see harness/src/props/c07.rs):
 * `seek <opt> <doc_freq> <hex> <program>` → doc after every op
 * `pos_enc <deltas>` → hex; `pos_read <hex> <offset> <len>` → values | `err`
 * `blocksearch <values> <target>` → index
+* `pipeline <opt> <corpus>` → same format as `invert`, computed through recorders → serializer → decoder
 * `invert <opt> <corpus>` → `<terms>|<total_num_tokens>|<fieldnorm ids>`
 -/
 namespace TantivyModel.Driver.C07
@@ -84,6 +86,24 @@ def showTermInfo (t : TermInfoStore.TermInfo) : String :=
 def handleInvert (o : String) (corpus : String) : String :=
   match parseOpt o, parseCorpus corpus with
   | some o, some c => showInverted o (invert c)
+  | _, _ => "bad-op"
+
+/-- the modelled indexing pipeline, in the response format of `invert` -/
+def handlePipeline (o : String) (corpus : String) : String :=
+  match parseOpt o, parseCorpus corpus with
+  | some o, some c =>
+    let ix := Recorder.indexCorpus o c
+    let terms := termsOf Gen.Postings.POSITION_GAP c
+    let entries := terms.map (fun t =>
+      match ix.table t with
+      | none => (hexOfNats t).getD "bad" ++ "=missing"
+      | some r =>
+        match Recorder.readBack o (Recorder.serializeTerm o r) with
+        | none => (hexOfNats t).getD "bad" ++ "=unreadable"
+        | some ps => (hexOfNats t).getD "bad" ++ "=" ++ ",".intercalate (ps.map showPosting))
+    (if entries.isEmpty then "-" else ";".intercalate entries)
+    ++ "|" ++ toString ix.totalNumTokens ++ "|" ++
+    showNatList (c.map (fun d => FieldNorm.fieldnormId (Recorder.docTokenCount o d)))
   | _, _ => "bad-op"
 
 def handle : List String → String
@@ -202,6 +222,8 @@ def handle : List String → String
     | _, _ => "bad-op"
   | ["invert", o, corpus] => handleInvert o corpus
   | ["invert", o] => handleInvert o ""
+  | ["pipeline", o, corpus] => handlePipeline o corpus
+  | ["pipeline", o] => handlePipeline o ""
   | _ => "bad-op"
 
 end TantivyModel.Driver.C07
